@@ -258,7 +258,7 @@ Ltac unfold_all :=
     validate_kMinPathError, validate_kLeastAbsErrors, validate_kErrDAG, validate_kPathCover, validate_MinPathCover,
     validate_MinErrorFlow, validate_kFlowDecompCycles, validate_kLeastAbsErrorsCycles, validate_kMinPathErrorCycles,
     validate_kErrCycles, validate_kPathCoverCycles, validate_MinPathCoverCycles, validate_MinFlowDecompCycles,
-    mfd_solve, kfd_core, kfdc_core, front, front_node, front_edge, front_cover, v_stdag, v_stdigraph, v_ssg_common, v_nodeexp,
+    mfd_solve, kfd_core, kfdc_core, front_cover, front, front_node, front_edge, front_cover, v_stdag, v_stdigraph, v_ssg_common, v_nodeexp,
     v_maxflow, v_pathmodel, v_walkmodel, v_walkmodel_k, v_fooled, st_of, en_of, VE in *.
 Ltac unfold_dom :=
   unfold in_domain_stDAG, in_domain_stDiGraph, in_domain_NodeExpandedDiGraph, in_domain_kFlowDecomp, in_domain_MinFlowDecomp,
@@ -575,20 +575,10 @@ Proof. exists (set_origin (set_cons ex_dag [empty_constraint] 1%Q) ONode). vm_co
 Definition deviates_MinFlowDecomp (i : input) :=
   all_ignored i || dev_cov i || dev_greedy i || dev_expand i || negb (search_enters i).
 
-Lemma live_not_all_missing i : has_live i = true -> bad_live i = false ->
-  forallb (fun e => missing_w (e_w e)) (elems i) = false.
-Proof.
-  intros L B. destruct (forallb _ (elems i)) eqn:E; auto.
-  rewrite (all_missing_live_bad i E L) in B. discriminate.
-Qed.
-
 Theorem validate_sound_MinFlowDecomp i :
-  has_live i = true -> validate_MinFlowDecomp i = RaiseValueError -> in_domain_MinFlowDecomp i = false.
+  validate_MinFlowDecomp i = RaiseValueError -> in_domain_MinFlowDecomp i = false.
 Proof.
-  intros L H. destruct (in_domain_MinFlowDecomp i) eqn:D; [exfalso|reflexivity].
-  assert (B : bad_live i = false).
-  { unfold_dom. destruct (origin i); bsimp; try discriminate; split_dom D; norm_hyps; assumption. }
-  pose proof (live_not_all_missing i L B) as M.
+  intros H. destruct (in_domain_MinFlowDecomp i) eqn:D; [exfalso|reflexivity].
   sound_script i.
   all: destruct (starts i), (ends i); cbn in *; try discriminate; fin H.
 Qed.
@@ -607,9 +597,6 @@ Theorem accepts_domain_MinFlowDecomp i :
   in_domain_MinFlowDecomp i = true -> has_live i = true -> search_enters i = true -> validate_MinFlowDecomp i = Accept.
 Proof.
   intros D L S.
-  assert (B : bad_live i = false).
-  { unfold_dom. destruct (origin i); bsimp; try discriminate; split_dom D; norm_hyps; assumption. }
-  pose proof (live_not_all_missing i L B) as M.
   rewrite has_live_all_ignored in L. apply negb_true_iff in L.
   accept_script i.
   all: destruct (starts i), (ends i); cbn in *; try discriminate; fing.
